@@ -2,6 +2,7 @@ package storage
 
 import (
 	"bytes"
+	"time"
 
 	"github.com/dgraph-io/badger/v3"
 
@@ -178,6 +179,119 @@ func VerifC06Query(v *verifrt.T) {
 			v.Assert(verifrt.Not(want), "C06.all-of-the-most-recent")
 		}
 		newer += verifrt.B2U(m)
+	}
+	v.Observe("n", uint64(len(res)))
+}
+
+// ---- the cluster half of a query: local lookup + survey of the peers ----
+
+type c06awaiter struct{ resp [][]byte }
+
+func (a *c06awaiter) Gather(time.Duration) [][]byte { return a.resp }
+
+type c06survey struct {
+	resp    [][]byte
+	queries int
+}
+
+func (s *c06survey) Query(string, []byte) (message.Awaiter, error) {
+	s.queries++
+	return &c06awaiter{resp: s.resp}, nil
+}
+
+// the frame a peer answered with (message.DecodeFrame is snappy + reflection)
+var c06peerFrame message.Frame
+
+func c06DecodeFrame(buf []byte) (message.Frame, error) {
+	return append(message.Frame(nil), c06peerFrame...), nil
+}
+
+func c06Marshal(v interface{}) ([]byte, error) { return []byte{1}, nil }
+
+// VerifC06Cluster: Storage.Query on a clustered broker is the local lookup plus what the
+// peers answer to the survey, cut to the `limit` most recent. Local and peer messages on one
+// channel with arbitrary times: the result is exactly the `limit` most recent of both
+// together, in non-decreasing time - whether or not the local store alone could fill the page.
+func VerifC06Cluster(v *verifrt.T) {
+	ssid := message.Ssid{7, 11}
+	nl, np := v.Bound("local"), v.Bound("peer")
+	type ent struct {
+		t    int64
+		peer bool
+	}
+	var all []ent
+	c06entries = nil
+	var local []message.Message
+	for i := 0; i < nl; i++ {
+		t := v.I64("lt", i)
+		v.Assume(t >= security.MinTime && t < security.MaxTime)
+		id := message.NewID(ssid)
+		id.SetTime(t)
+		m := message.Message{ID: id, Channel: []byte("c/"), Payload: []byte{byte(i)}, TTL: 4294967294}
+		local = append(local, m)
+		c06entries = append(c06entries, c06entry{key: id, msg: m})
+		all = append(all, ent{t: t})
+	}
+	for i := 0; i+1 < nl; i++ {
+		v.Assume(bytes.Compare(c06entries[i].key, c06entries[i+1].key) < 0) // the store is ordered by key
+	}
+	c06peerFrame = nil
+	for i := 0; i < np; i++ {
+		t := v.I64("pt", i)
+		v.Assume(t >= security.MinTime && t < security.MaxTime)
+		id := message.NewID(ssid)
+		id.SetTime(t)
+		c06peerFrame = append(c06peerFrame, message.Message{ID: id, Channel: []byte("c/"), Payload: []byte{byte(100 + i)}, TTL: 4294967294})
+		all = append(all, ent{t: t, peer: true})
+	}
+	// all times distinct: which of two equally old messages is cut is not specified
+	for i := range all {
+		for j := i + 1; j < len(all); j++ {
+			v.Assume(all[i].t != all[j].t)
+		}
+	}
+	limit := 1 + v.Choice(nl+np, "limit")
+	sv := &c06survey{}
+	var s *SSD
+	if v.Symbolic() {
+		s = &SSD{db: new(badger.DB), survey: sv}
+		sv.resp = [][]byte{{1}}
+	} else {
+		mem := NewInMemory(sv)
+		mem.Configure(nil)
+		s = &mem.SSD
+		for _, m := range local {
+			s.storeFrame(message.Frame{m})
+		}
+		sv.resp = [][]byte{c06peerFrame.Encode()}
+	}
+	res, err := s.Query(ssid, time.Unix(security.MinTime, 0), time.Unix(0, 0), nil, limit)
+	v.Reach("cluster-queried")
+	v.Assert(err == nil, "C06.cluster.query-ok")
+	v.Assert(len(res) <= limit, "C06.cluster.at-most-limit")
+	for i := 0; i+1 < len(res); i++ {
+		v.Assert(res[i].Time() <= res[i+1].Time(), "C06.cluster.non-decreasing-time")
+	}
+	// expected: message x is returned iff fewer than `limit` messages (local or peer) are newer
+	for i := range all {
+		newer := 0
+		for j := range all {
+			if j != i {
+				newer += int(verifrt.B2U(all[j].t > all[i].t))
+			}
+		}
+		want := newer < limit
+		got := false
+		for _, m := range res {
+			idx := int(m.Payload[0])
+			if all[i].peer {
+				idx -= 100 - nl
+			}
+			if idx == i {
+				got = true
+			}
+		}
+		v.Assert(got == want, "C06.cluster.most-recent-of-local-and-peers")
 	}
 	v.Observe("n", uint64(len(res)))
 }
